@@ -236,7 +236,7 @@ def mc_deviations(ctx, kd):
     """With the listed deviations switched on the model must break the clauses they are about (the findings'
     witnesses at model level); with none it must not (that run is the cache family above)."""
     out = {}
-    for fam, kw in (("cache", dict(depth=3)),):
+    for fam, kw in (("cache", dict(depth=4)),):
         cfg = ctx.path(f"mc_dev_{fam}.cfg")
         lib.write_cfg(cfg, constants(fam, kd, **kw), "MCInit", "MCNext", invariants=[i for i in INVARIANTS if i != "Emit"])
         r = lib.tlc(ctx, MODULE_MC, cfg, timeout=900, expect_violation=True)
